@@ -43,6 +43,8 @@ type Config struct {
 	PVec      float64 // probability that a vector property is present on insert (0 = as the others)
 	// EmptyStrings: indexed string values are drawn uniformly, "" included
 	EmptyStrings bool
+	// BadTypes: now and then an indexed field carries a value of the wrong type
+	BadTypes bool
 	// RareEmpty: "" appears with probability 1/150 per indexed string value
 	RareEmpty bool
 }
@@ -342,6 +344,7 @@ func (g *Gen) DocFrom(forUpdate bool, pInc float64, cur map[string]any) GenDoc {
 		ix  map[string]any
 		del bool
 		sz  int
+		bad bool // the value has the wrong type for the index on this field
 	}
 	abs := map[string]*fieldAbs{}
 	get := func(f string) *fieldAbs {
@@ -373,6 +376,17 @@ func (g *Gen) DocFrom(forUpdate bool, pInc float64, cur map[string]any) GenDoc {
 			pi := pInc
 			if !forUpdate && props[0].IsVector() && g.Cfg.PVec > 0 {
 				pi = g.Cfg.PVec
+			}
+			if g.Cfg.BadTypes && g.R.Intn(40) == 0 {
+				// wrong type for the indexed field: the batch must be rejected
+				switch props[0].Type {
+				case models.IndexTypeString, models.IndexTypeText:
+					real[f] = int64(5)
+				default:
+					real[f] = "oops"
+				}
+				get(f).bad = true
+				continue
 			}
 			if g.R.Float64() < pi {
 				rv, av := g.propValue(props[0])
@@ -442,7 +456,7 @@ func (g *Gen) DocFrom(forUpdate bool, pInc float64, cur map[string]any) GenDoc {
 		if a.del {
 			d = 1
 		}
-		out[f] = map[string]any{"c": Canon(normalise(real[f])), "ix": a.ix, "d": d, "sz": a.sz}
+		out[f] = map[string]any{"c": Canon(normalise(real[f])), "ix": a.ix, "d": d, "sz": a.sz, "bad": b2i(a.bad)}
 	}
 	return GenDoc{Real: real, Abs: out}
 }
